@@ -2,10 +2,6 @@ package main
 
 import "verif/harness/fw"
 
-func genF2(g *fw.GenCtx, em *emitter) []Exec { return nil }
-func genF3(g *fw.GenCtx, em *emitter) []Exec { return nil }
-func genF4(g *fw.GenCtx, em *emitter)        {}
 func genF5(g *fw.GenCtx, em *emitter)        {}
-func genF6(g *fw.GenCtx, em *emitter)        {}
 func genF7(g *fw.GenCtx, em *emitter)        {}
 func genF8(g *fw.GenCtx, em *emitter, reps []Exec) {}
